@@ -322,6 +322,7 @@ def check_init_dtype(ctx, rule, m):
         n += 1
         dsrc = None       # how the local `dtype` relates to the stored frequencies on this path
         stored = False
+        n_dt = 0
         for s_ in path:
             if s_[0] != "stmt":
                 continue
@@ -337,7 +338,9 @@ def check_init_dtype(ctx, rule, m):
                     dsrc = "read-from-array"
                 elif tgt == "dtype" and dsrc == "read-from-array":
                     dsrc = None
-                if tgt.startswith("self._dtype"):
+                t0 = st.targets[0]
+                if tgt == "self._dtype" or (isinstance(t0, ast.Tuple) and any(U(e_) == "self._dtype" for e_ in t0.elts)):
+                    n_dt += 1
                     arg = val.args[0] if isinstance(val, ast.Call) and val.args else val
                     if not (stored and U(arg) == "dtype" and dsrc in ("allocated-with", "read-from-array")):
                         probs.append(f"`{U(st)[:60]}`: the dtype stored is not the element type of the frequencies array just stored")
@@ -349,6 +352,8 @@ def check_init_dtype(ctx, rule, m):
                         isinstance(x, ast.Name) and x.id not in ("self", "abs", "np") for x in ast.walk(val))
                     if not (typed or derived):
                         probs.append(f"`{U(st)[:70]}` stores squared errors of whatever type the caller passed (reported dtype stays)")
+        if n_dt != 1:
+            probs.append(f"a constructing path stores _dtype {n_dt} times")
     ctx.check(n >= 2 and not probs, rule, "HistogramBase.__init__:dtype-is-the-arrays'", f"{n} constructing paths: _dtype = element type of the "
               "stored frequencies; errors2 derived from them or converted to that dtype", "; ".join(sorted(set(probs))[:2]), init.where)
 
